@@ -13,7 +13,7 @@ PROP = "C03"
 EXTRA_GENERATORS = ["gen_tables_c03.py"]
 META = {
  "engine": "S-scheduler",
- "text": "Coq theorems (Props/C03.v, closed under the global context) about an executable model of Event.__init__ / EventDefaults / Track.perform_event (Sched/Event.v, transcribed branch by branch over a small Python-value type; parameter names, ALL_EVENT_PARAMETERS and the library defaults are regenerated from the source on every run): every chord voice of a degree event plays tonic + scale[floor(d) mod n] + octave_size*floor(floor(d)/n) + 12*octave + transpose (negative degrees descend), a note event plays note + 12*octave + transpose; amplitude/gate/channel/duration come from the event (dur, amp, velocity folded), else the timeline defaults' current value, else the generated library default, and a default never overrides an explicit value; the event type is the first present of action > patch > control > program_change > osc_address > synth > note|degree for all 2^7 subsets; control/program-change/OSC/synth/action events emit exactly the matching call; an unknown key, note with degree, or no type key raises and emits no call. The model is tied to the repository on every run: ~4000 (quick) / ~60000 (thorough) generated dictionaries are run through Event(dict, defaults) and through a one-track Timeline with a recording OutputDevice, and the Event attributes, every device call with its tick and arguments, and the escaping exception class are compared with the model inside Coq (vm_compute); an independent oracle written from docs/events judges every implementation result on the documented domain and supplies the failing input. Streams of several dictionaries are judged dictionary by dictionary on the documented time grid (a malformed dictionary at ANY position of a stream must raise and play nothing; theorems C03_reject_*_anywhere), and the timeline's defaults are re-assigned between two events of a running track (the defaults in force when a dictionary is due complete it; model Sched/EventCfg.v with the defaults object in its state, theorems C03_current_defaults_complete_the_event, C03_reassigned_default, C03_stream_without_reassignment). Keys given as objects that are HELD and re-tuned in place between two events of the stream (key.tonic =, key.scale =, key.scale.semitones = / replaced or re-ordered in place, two keys on one Scale object; the key named by every dictionary, by some, or only by timeline.defaults.key; the stream scheduled as a pattern of dictionaries or as one dictionary of patterns): model Sched/EventHeld.v (references into the store of Key and Scale objects of Tonal/Held.v, the store in the state, every dictionary read in the store of the moment it is due), theorems C03_held_key_current, C03_held_key_pitch, C03_held_key_pitch_chord, C03_held_reject_unknown_key_anywhere, C03_held_without_retuning; the stream oracle judges every event against the key as it is when the event is due. Keys given BY NAME are looked up in the registry of scale names of the same store (Sched/EventHeld.v key_of_name_reg; C03_key_name_library: in the freshly imported library this is Sched/Event.v's key_of_name); stream 'named-key' constructs scales, weighted scales (named like the scales in use, or unnamed = 'major'), edited copies of the named scales and keys built from names earlier in the process and between two events whose key is a name (library or user-registered, in the dictionary or as timeline.defaults.key): what a registered name denotes must not change (theorems C03_named_key_pitch, C03_named_key_pitch_chord, C03_key_name_stable).",
+ "text": "Coq theorems (Props/C03.v, closed under the global context) about an executable model of Event.__init__ / EventDefaults / Track.perform_event (Sched/Event.v, transcribed branch by branch over a small Python-value type; parameter names, ALL_EVENT_PARAMETERS and the library defaults are regenerated from the source on every run): every chord voice of a degree event plays tonic + scale[floor(d) mod n] + octave_size*floor(floor(d)/n) + 12*octave + transpose (negative degrees descend), a note event plays note + 12*octave + transpose; amplitude/gate/channel/duration come from the event (dur, amp, velocity folded), else the timeline defaults' current value, else the generated library default, and a default never overrides an explicit value; the event type is the first present of action > patch > control > program_change > osc_address > synth > note|degree for all 2^7 subsets; control/program-change/OSC/synth/action events emit exactly the matching call; an unknown key, note with degree, or no type key raises and emits no call. The model is tied to the repository on every run: ~4000 (quick) / ~60000 (thorough) generated dictionaries are run through Event(dict, defaults) and through a one-track Timeline with a recording OutputDevice, and the Event attributes, every device call with its tick and arguments, and the escaping exception class are compared with the model inside Coq (vm_compute); an independent oracle written from docs/events judges every implementation result on the documented domain and supplies the failing input. Streams of several dictionaries are judged dictionary by dictionary on the documented time grid (a malformed dictionary at ANY position of a stream must raise and play nothing; theorems C03_reject_*_anywhere), and the timeline's defaults are re-assigned between two events of a running track (the defaults in force when a dictionary is due complete it; model Sched/EventCfg.v with the defaults object in its state, theorems C03_current_defaults_complete_the_event, C03_reassigned_default, C03_stream_without_reassignment). Keys given as objects that are HELD and re-tuned in place between two events of the stream (key.tonic =, key.scale =, key.scale.semitones = / replaced or re-ordered in place, two keys on one Scale object; the key named by every dictionary, by some, or only by timeline.defaults.key; the stream scheduled as a pattern of dictionaries or as one dictionary of patterns): model Sched/EventHeld.v (references into the store of Key and Scale objects of Tonal/Held.v, the store in the state, every dictionary read in the store of the moment it is due), theorems C03_held_key_current, C03_held_key_pitch, C03_held_key_pitch_chord, C03_held_reject_unknown_key_anywhere, C03_held_without_retuning; the stream oracle judges every event against the key as it is when the event is due. Keys given BY NAME are looked up in the registry of scale names of the same store (Sched/EventHeld.v key_of_name_reg; C03_key_name_library: in the freshly imported library this is Sched/Event.v's key_of_name); stream 'named-key' constructs scales, weighted scales (named like the scales in use, or unnamed = 'major'), edited copies of the named scales and keys built from names earlier in the process and between two events whose key is a name (library or user-registered, in the dictionary or as timeline.defaults.key): what a registered name denotes must not change (theorems C03_named_key_pitch, C03_named_key_pitch_chord, C03_key_name_stable). Which keys are KNOWN is decided by the documentation: coq/Sched/EventKeys.v lists the 33 documented event keys by hand (not from isobar/constants.py); Props/C03Keys.v proves that the regenerated ALL_EVENT_PARAMETERS table has exactly these members (C03_parameter_table_is_documented, C03_known_iff_documented, C03_reject_undocumented_key) - a source whose whitelist grows or shrinks breaks that obligation -, the oracle reads the documented list, and the stray key of an unknown-key dictionary is drawn from every string constant of constants.py that is not a documented key (type names, interpolation modes), from near-misses of documented keys and from nonsense words.",
  "note": "Trusted: Coq kernel + VM; gen_tables.py / gen_tables_c03.py; the Python harness (case encoding, the recording device, first-value substitution for pattern-valued dictionary entries); CPython int semantics (//, % = Z.div/Z.modulo; int(float) truncates). Modelled, not verified: floats are exact rationals in the model (the harness only generates dyadic rationals on the 1/256 grid, where isobar's round(x, 8) comparisons are exact); SignalFlow patch events are classified but not dispatched; the generic-event ('event' method) device path, on_event callbacks, interpolation and str-typed numbers are outside the model (Unmodelled outcome, such cases are discarded and counted).",
 }
 
@@ -278,7 +278,8 @@ def snippet(case):
 # ------------------------------------------------------------------------------------------------------
 # the oracle: docs/events/*.md rendered directly (no reference to the model)
 # ------------------------------------------------------------------------------------------------------
-LIB_DEFAULTS = None        # filled from the repository's constants at the start of check()
+LIB_DEFAULTS = None        # filled at the start of check(): documented keys (coq/Sched/EventKeys.v), library default values
+CONSTANT_STRINGS = []      # every string constant of isobar/constants.py (read through the driver)
 
 
 def oracle(case, scales, note_names, _probe=False):
@@ -712,6 +713,7 @@ class Gen:
         self.scale_names = sorted(scales)
         self.note_names = note_names
         self.next_id = 0
+        self.last_stray = None
 
     def fresh(self):
         self.next_id += 1
@@ -912,6 +914,10 @@ class Gen:
             strata.append("scale-key")
         if r.random() < 0.04:
             ev.append([r.choice(["quantize", "delay", "time", "event"]), 0])
+        if r.random() < 0.05:
+            # a documented key of ANOTHER event type next to a note: accepted (it is a documented key) and without effect
+            ev.append([r.choice(["value", "args", "params", "osc_params", "output", "trigger_name", "trigger_value"]), 0])
+            strata.append("key-of-another-event-type")
         r.shuffle(ev)
         if want_pattern_entries:
             # some entries are patterns (resolved once per event by the track's PDict)
@@ -924,6 +930,51 @@ class Gen:
                     kv[1] = P(kv[1], mk[kv[0]](), mk[kv[0]]())
                     strata.append("pattern-entry")
         return ev, strata
+
+    def stray_key(self):
+        """a key the documentation does not know, drawn from everything that is close to a real key: (a) every string that occurs as
+        a constant in isobar/constants.py and is not a documented key (the names of the event TYPES, of the interpolation modes ...),
+        (b) near-misses of documented keys (a component of a compound key - `osc` for `osc_address` -, singular / plural, a trailing
+        underscore or blank, another case, a dropped or doubled letter, a key of the class `key2`), (c) plain nonsense"""
+        r = self.rng
+        doc = LIB_DEFAULTS["params"]
+        for _ in range(50):
+            u = r.random()
+            if u < 0.40:
+                pool = [c for c in CONSTANT_STRINGS if c not in doc]
+                if not pool:
+                    continue
+                bad, how = r.choice(sorted(set(pool))), "constant-of-constants.py"
+            elif u < 0.85:
+                k = r.choice(doc)
+                v = r.randrange(9)
+                parts = k.split("_")
+                if v == 0 and len(parts) > 1:
+                    bad = r.choice(parts)
+                elif v == 1:
+                    bad = k[:-1] if k.endswith("s") else k + "s"
+                elif v == 2:
+                    bad = k + r.choice(["_", " ", "_legacy", "2"])
+                elif v == 3:
+                    bad = r.choice([k.capitalize(), k.upper(), k.title()])
+                elif v == 4 and len(k) > 3:
+                    i = r.randrange(len(k))
+                    bad = k[:i] + k[i + 1:]
+                elif v == 5:
+                    i = r.randrange(len(k))
+                    bad = k[:i] + k[i] + k[i:]
+                elif v == 6:
+                    bad = r.choice(["_", "event_", "EVENT_"]) + k
+                elif v == 7 and len(k) > 4:
+                    bad = k[:r.randint(2, len(k) - 1)]
+                else:
+                    bad = k.replace("_", r.choice(["", "-", "."])) if "_" in k else k + "_" + r.choice(doc)
+                how = "near-miss-of-a-documented-key"
+            else:
+                bad, how = r.choice(["foo", "pitch", "vel", "length", "chan", "sustain", "", "freq", "midi", "oct"]), "nonsense"
+            if bad not in doc and not any(ord(c) > 126 or ord(c) < 32 for c in bad):
+                return bad, how
+        return "foo", "nonsense"
 
     # ---- stream B: every subset of the type-selecting keys ------------------------------------------------------
     def typed_event(self, mask, seventh):
@@ -984,8 +1035,9 @@ class Gen:
                 ev, _ = self.note_event()
             else:
                 ev = self.typed_event(r.randint(0, 63), r.choice(["none", "note", "degree"]))
-            bad = r.choice(["foo", "Note", "notes", "pitch", "vel", "length", "amplitude ", "chan", "degrees", "dura", "", "sustain"])
+            bad, how = self.stray_key()
             ev.insert(r.randint(0, len(ev)), [bad, r.choice([1, None, "bar", F(0.5)])])
+            self.last_stray = how
             return ev, "unknown-key"
         if kind == "note+degree":
             ev, _ = self.note_event()
@@ -1464,7 +1516,7 @@ def generate(run, scales, note_names, n_total):
     for _ in range(n_c):
         ev, kind = g.malformed()
         defaults = g.default_overrides(0.1) if r.random() < 0.25 else []
-        add(g.finish([ev], defaults), "malformed", ["malformed." + kind])
+        add(g.finish([ev], defaults), "malformed", ["malformed." + kind] + (["malformed.unknown-key." + g.last_stray] if kind == "unknown-key" else []))
     # D: a pattern that generates 2-3 dictionaries; pattern-valued defaults advance once per event
     for _ in range(n_d):
         k = r.choice([1, 2, 2, 3])
@@ -1731,12 +1783,32 @@ def load_tables(run):
         vals[name] = v
     if not params or set(vals) != set(DEFAULT_NAMES):
         raise CheckError("cannot read Generated/TablesC03.v")
-    LIB_DEFAULTS = {"params": params, "values": vals}
+    # the keys the oracle accepts are the DOCUMENTED ones: the hand-written list of coq/Sched/EventKeys.v (from docs/events,
+    # docs/devices, the property text) - never the source's ALL_EVENT_PARAMETERS, which is only compared with it
+    ktxt = open(os.path.join(COQDIR, "Sched", "EventKeys.v")).read()
+    body = ktxt.split("Definition documented_event_keys")[1].split(":=")[1].split("].")[0]
+    documented = re.findall(r'"([^"]*)"', body)
+    if len(documented) != 33 or len(set(documented)) != 33:
+        raise CheckError("cannot read coq/Sched/EventKeys.v")
+    global CONSTANT_STRINGS
+    CONSTANT_STRINGS = [v for _n, v in info.get("constant_strings", [])]
+    LIB_DEFAULTS = {"params": documented, "source_params": params, "values": vals}
     return scales, note_names
 
 
 def check(run):
     scales, note_names = load_tables(run)
+    doc, src = set(LIB_DEFAULTS["params"]), set(LIB_DEFAULTS["source_params"])
+    run.cov["documented_event_keys"] = len(doc)
+    if doc != src:
+        # Props/C03Keys.v (C03_parameter_table_is_documented) no longer compiles either; the generator below looks for a dictionary
+        # that the implementation now treats differently from the documentation
+        run.violation({"kind": "parameter-table", "site": "constants.ALL_EVENT_PARAMETERS"}, {
+            "broken": "ALL_EVENT_PARAMETERS of the source is not the documented list of event keys (coq/Sched/EventKeys.v; theorem "
+                      "C03_parameter_table_is_documented of Props/C03Keys.v)",
+            "accepted_by_the_source_but_not_documented": sorted(src - doc),
+            "documented_but_not_accepted_by_the_source": sorted(doc - src),
+            "python": "from isobar.constants import ALL_EVENT_PARAMETERS; print(sorted(set(ALL_EVENT_PARAMETERS)))"}, found_input=False)
     n_total = 4000 if run.tier == "quick" else 60000
     cases = generate(run, scales, note_names, n_total)
     for i in range(0, len(cases), 6000):
